@@ -193,3 +193,546 @@ Lemma nn_in_names_lt st i s : nth_error (nn_names st) i = Some s -> nn_in_names 
 Proof. intro E. unfold nn_in_names. apply Nat.ltb_lt. exact (nn_nth_lt _ _ _ E). Qed.
 Lemma nn_in_nodes_lt st a s : nth_error (nn_nodes st) a = Some s -> nn_in_nodes st a = true.
 Proof. intro E. unfold nn_in_nodes. apply Nat.ltb_lt. exact (nn_nth_lt _ _ _ E). Qed.
+
+(* ------------------------------------------------------------------ one step *)
+Definition nn_wr_names (t : nat) (op : nn_op) : list nat :=
+  match op with
+  | NnNewHeap i _ | NnNewStatic i _ | NnFromArc i _ | NnDrop i | NnWithLoc i _ _ | NnIntoArc i => [nn_nidx t i]
+  | NnClone _ j => [nn_nidx t j]
+  | NnCloneTo _ t2 j => [nn_nidx t2 j]
+  | NnMove i j => [nn_nidx t i; nn_nidx t j]
+  | _ => []
+  end.
+
+Definition nn_wr_nodes (t : nat) (op : nn_op) : list nat :=
+  match op with
+  | NdNew a _ | NdNewParsed a _ _ _ _ | NdDrop a | NdGetMut a _ | NdMakeMut a _ => [nn_didx t a]
+  | NdClone _ b | NdSameLoc _ b _ => [nn_didx t b]
+  | NdCloneTo _ t2 b => [nn_didx t2 b]
+  | NdMove a b => [nn_didx t a; nn_didx t b]
+  | _ => []
+  end.
+
+(* locations whose contents an operation may overwrite: only through get_mut / make_mut, and then only a
+   location that the handle references uniquely, or a freshly allocated one *)
+Definition nn_written (st : nn_state) (t : nat) (op : nn_op) (l : N) : Prop :=
+  match op with
+  | NdGetMut a _ | NdMakeMut a _ =>
+      (nth_error (nn_nodes st) (nn_didx t a) = Some (NnLive l) /\ hp_strong_of (nn_heap st) l = 1)
+      \/ hp_next (nn_heap st) <= l
+  | _ => False
+  end.
+
+Definition nn_post (st : nn_state) (t : nat) (op : nn_op) (st' : nn_state) : Prop :=
+  nn_inv st' /\
+  (forall k, ~ In k (nn_wr_names t op) -> nth_error (nn_names st') k = nth_error (nn_names st) k) /\
+  (forall a, ~ In a (nn_wr_nodes t op) -> nth_error (nn_nodes st') a = nth_error (nn_nodes st) a) /\
+  hp_pres (nn_written st t op) (nn_heap st) (nn_heap st').
+
+Ltac fin_bal :=
+  unfold nn_wname, nn_wnode, nn_wprobe, hp_ind in *;
+  cbn [nn_ptr_of nn_fresh_name nn_tagged nn_start nn_wsum] in *;
+  repeat (match goal with
+          | H : context [N.eqb ?a ?b] |- _ => destruct (N.eqb_spec a b)
+          | |- context [N.eqb ?a ?b] => destruct (N.eqb_spec a b)
+          end);
+  subst; lia.
+
+(* cloning the handle n (live in slot i) into the dead slot k *)
+Lemma nn_clone_into st i n k s0 :
+  nn_inv st -> nth_error (nn_names st) i = Some (NnLive n) ->
+  nth_error (nn_names st) k = Some s0 -> nn_is_live s0 = false ->
+  exists st2, nn_clone_name st n = HpOk st2 /\ nn_names st2 = nn_names st /\ nn_nodes st2 = nn_nodes st /\
+    nn_inv (nn_set_name st2 k (NnLive n)) /\ hp_pres (fun _ => False) (nn_heap st) (nn_heap st2).
+Proof.
+  intros I E E0 Hd. pose proof (nn_nth_Forall _ _ _ _ (ni_names st I) E) as Hok. cbn [nn_slot_ok] in Hok.
+  unfold nn_clone_name. rewrite (nn_as_arc_ok n Hok).
+  destruct (nn_ptr_of n) as [l|sx] eqn:P.
+  - pose proof (nn_live_name_strong st i n l I E P) as S.
+    destruct (hp_incr_ok _ l (ni_wf st I) S) as (h2 & E2 & W2 & Hs & Hv & Hn). rewrite E2.
+    eexists. split; [reflexivity|]. split; [reflexivity|]. split; [reflexivity|]. split.
+    + constructor.
+      * exact W2.
+      * intro l'.
+        pose proof (nn_refs_set_name (nn_set_heap st h2) k s0 (NnLive n) l' E0) as R.
+        rewrite nn_refs_set_heap in R. specialize (Hs l'). pose proof (ni_bal st I l') as B.
+        pose proof (@nn_dead_wname l' s0 Hd) as Z. cbn [nn_set_name nn_set_heap nn_heap nn_names nn_nodes nn_probes] in *.
+        unfold nn_wname at 2 in R. rewrite P in R. fin_bal.
+      * cbn [nn_set_name nn_set_heap nn_names]. apply nn_upd_Forall; [exact (ni_names st I)|exact Hok].
+    + eapply hp_pres_incr; [exact (ni_wf st I)|exact S|exact E2].
+  - eexists. split; [reflexivity|]. split; [reflexivity|]. split; [reflexivity|]. split.
+    + constructor.
+      * exact (ni_wf st I).
+      * intro l'. pose proof (nn_refs_set_name st k s0 (NnLive n) l' E0) as R.
+        pose proof (ni_bal st I l') as B. pose proof (@nn_dead_wname l' s0 Hd) as Z.
+        cbn [nn_set_name nn_heap] in *. unfold nn_wname at 2 in R. rewrite P in R. lia.
+      * cbn [nn_set_name nn_names]. apply nn_upd_Forall; [exact (ni_names st I)|exact Hok].
+    + apply hp_pres_refl.
+Qed.
+
+Lemma nn_nclone_into st a l k s0 :
+  nn_inv st -> nth_error (nn_nodes st) a = Some (NnLive l) ->
+  nth_error (nn_nodes st) k = Some s0 -> nn_is_live s0 = false ->
+  exists h2, hp_incr (nn_heap st) l = HpOk h2 /\
+    nn_inv (nn_set_node (nn_set_heap st h2) k (NnLive l)) /\ hp_pres (fun _ => False) (nn_heap st) h2.
+Proof.
+  intros I E E0 Hd. pose proof (nn_live_node_strong st a l I E) as S.
+  destruct (hp_incr_ok _ l (ni_wf st I) S) as (h2 & E2 & W2 & Hs & Hv & Hn).
+  exists h2. split; [exact E2|]. split.
+  - constructor.
+    + exact W2.
+    + intro l'. pose proof (nn_refs_set_node (nn_set_heap st h2) k s0 (NnLive l) l' E0) as R.
+      rewrite nn_refs_set_heap in R. specialize (Hs l'). pose proof (ni_bal st I l') as B.
+      pose proof (@nn_dead_wnode l' s0 Hd) as Z. cbn [nn_set_node nn_set_heap nn_heap nn_names nn_nodes nn_probes] in *.
+      fin_bal.
+    + exact (ni_names st I).
+  - eapply hp_pres_incr; [exact (ni_wf st I)|exact S|exact E2].
+Qed.
+
+Lemma nn_drop_name_ok st i n :
+  nn_inv st -> nth_error (nn_names st) i = Some (NnLive n) ->
+  exists st2, nn_drop_name st n = HpOk st2 /\ nn_names st2 = nn_names st /\ nn_nodes st2 = nn_nodes st /\
+    nn_probes st2 = nn_probes st /\
+    nn_inv (nn_set_name st2 i (NnStale n)) /\ hp_pres (fun _ => False) (nn_heap st) (nn_heap st2).
+Proof.
+  intros I E. pose proof (nn_nth_Forall _ _ _ _ (ni_names st I) E) as Hok. cbn [nn_slot_ok] in Hok.
+  unfold nn_drop_name. rewrite (nn_as_arc_ok n Hok).
+  destruct (nn_ptr_of n) as [l|sx] eqn:P.
+  - pose proof (nn_live_name_strong st i n l I E P) as S.
+    destruct (hp_decr_ok _ l (ni_wf st I) S) as (h2 & E2 & W2 & Hs & Hv & Hn). rewrite E2.
+    eexists. split; [reflexivity|]. split; [reflexivity|]. split; [reflexivity|]. split; [reflexivity|]. split.
+    + constructor.
+      * exact W2.
+      * intro l'. pose proof (nn_refs_set_name (nn_set_heap st h2) i (NnLive n) (NnStale n) l' E) as R.
+        rewrite nn_refs_set_heap in R. specialize (Hs l'). pose proof (ni_bal st I l') as B.
+        cbn [nn_set_name nn_set_heap nn_heap nn_names nn_nodes nn_probes] in *.
+        unfold nn_wname in R. rewrite P in R. fin_bal.
+      * cbn [nn_set_name nn_set_heap nn_names]. apply nn_upd_Forall; [exact (ni_names st I)|exact Logic.I].
+    + eapply hp_pres_decr; [exact (ni_wf st I)|exact S|exact E2].
+  - eexists. split; [reflexivity|]. split; [reflexivity|]. split; [reflexivity|]. split; [reflexivity|]. split.
+    + constructor.
+      * exact (ni_wf st I).
+      * intro l'. pose proof (nn_refs_set_name st i (NnLive n) (NnStale n) l' E) as R.
+        pose proof (ni_bal st I l') as B. cbn [nn_set_name nn_heap] in *.
+        unfold nn_wname in R. rewrite P in R. lia.
+      * cbn [nn_set_name nn_names]. apply nn_upd_Forall; [exact (ni_names st I)|exact Logic.I].
+    + apply hp_pres_refl.
+Qed.
+
+Lemma nn_drop_node_ok st a l :
+  nn_inv st -> nth_error (nn_nodes st) a = Some (NnLive l) ->
+  exists h2, hp_decr (nn_heap st) l = HpOk h2 /\
+    nn_inv (nn_set_node (nn_set_heap st h2) a (NnStale l)) /\ hp_pres (fun _ => False) (nn_heap st) h2.
+Proof.
+  intros I E. pose proof (nn_live_node_strong st a l I E) as S.
+  destruct (hp_decr_ok _ l (ni_wf st I) S) as (h2 & E2 & W2 & Hs & Hv & Hn).
+  exists h2. split; [exact E2|]. split.
+  - constructor.
+    + exact W2.
+    + intro l'. pose proof (nn_refs_set_node (nn_set_heap st h2) a (NnLive l) (NnStale l) l' E) as R.
+      rewrite nn_refs_set_heap in R. specialize (Hs l'). pose proof (ni_bal st I l') as B.
+      cbn [nn_set_node nn_set_heap nn_heap nn_names nn_nodes nn_probes] in *. fin_bal.
+    + exact (ni_names st I).
+  - eapply hp_pres_decr; [exact (ni_wf st I)|exact S|exact E2].
+Qed.
+
+Lemma nn_alloc_name st k s0 s sp h l :
+  nn_inv st -> nth_error (nn_names st) k = Some s0 -> nn_is_live s0 = false ->
+  hp_alloc (nn_heap st) s sp = (h, l) ->
+  nn_inv (nn_set_name (nn_set_heap st h) k (NnLive (nn_fresh_name (NnPHeap l) true))) /\
+  hp_pres (fun _ => False) (nn_heap st) h.
+Proof.
+  intros I E0 Hd A.
+  destruct (hp_alloc_ok _ _ _ _ _ (ni_wf st I) A) as (Hl & W' & S0 & Hs & Hv1 & Hv2 & Hn).
+  split.
+  - constructor.
+    + exact W'.
+    + intro l'. pose proof (nn_refs_set_name (nn_set_heap st h) k s0 (NnLive (nn_fresh_name (NnPHeap l) true)) l' E0) as R.
+      rewrite nn_refs_set_heap in R. specialize (Hs l'). pose proof (ni_bal st I l') as B.
+      pose proof (@nn_dead_wname l' s0 Hd) as Z. cbn [nn_set_name nn_set_heap nn_heap nn_names nn_nodes nn_probes] in *.
+      fin_bal.
+    + cbn [nn_set_name nn_set_heap nn_names]. apply nn_upd_Forall; [exact (ni_names st I)|].
+      exact (nn_fresh_ok (NnPHeap l)).
+  - eapply hp_pres_alloc; [exact (ni_wf st I)|exact A].
+Qed.
+
+Lemma nn_alloc_node st k s0 s sp h l :
+  nn_inv st -> nth_error (nn_nodes st) k = Some s0 -> nn_is_live s0 = false ->
+  hp_alloc (nn_heap st) s sp = (h, l) ->
+  nn_inv (nn_set_node (nn_set_heap st h) k (NnLive l)) /\ hp_pres (fun _ => False) (nn_heap st) h.
+Proof.
+  intros I E0 Hd A.
+  destruct (hp_alloc_ok _ _ _ _ _ (ni_wf st I) A) as (Hl & W' & S0 & Hs & Hv1 & Hv2 & Hn).
+  split.
+  - constructor.
+    + exact W'.
+    + intro l'. pose proof (nn_refs_set_node (nn_set_heap st h) k s0 (NnLive l) l' E0) as R.
+      rewrite nn_refs_set_heap in R. specialize (Hs l'). pose proof (ni_bal st I l') as B.
+      pose proof (@nn_dead_wnode l' s0 Hd) as Z. cbn [nn_set_node nn_set_heap nn_heap nn_names nn_nodes nn_probes] in *.
+      fin_bal.
+    + exact (ni_names st I).
+  - eapply hp_pres_alloc; [exact (ni_wf st I)|exact A].
+Qed.
+
+Lemma nn_agree_set_name ln ld st k s :
+  nn_agree ln ld st -> nn_agree (nn_upd k (nn_is_live s) ln) ld (nn_set_name st k s).
+Proof. intros [-> ->]. split; cbn [nn_set_name nn_names nn_nodes]; [rewrite nn_map_upd|]; reflexivity. Qed.
+Lemma nn_agree_set_node ln ld st k (s : nn_slot N) :
+  nn_agree ln ld st -> nn_agree ln (nn_upd k (nn_is_live s) ld) (nn_set_node st k s).
+Proof. intros [-> ->]. split; cbn [nn_set_node nn_names nn_nodes]; [|rewrite nn_map_upd]; reflexivity. Qed.
+Lemma nn_agree_set_heap ln ld st h : nn_agree ln ld st -> nn_agree ln ld (nn_set_heap st h).
+Proof. intros [-> ->]. split; reflexivity. Qed.
+
+Lemma nn_not_in1 {k x : nat} : ~ In k [x] -> x <> k.
+Proof. intros H E. apply H. left. exact E. Qed.
+Lemma nn_not_in2 {k x y : nat} : ~ In k [x; y] -> x <> k /\ y <> k.
+Proof. intros H. split; intro E; apply H; [left|right; left]; exact E. Qed.
+
+Ltac nn_frames :=
+  split; [|split];
+  [ intros kk Hk; cbn [nn_set_name nn_set_node nn_set_heap nn_names nn_nodes]; try reflexivity
+  | intros aa Ha; cbn [nn_set_name nn_set_node nn_set_heap nn_names nn_nodes]; try reflexivity
+  | ].
+
+Lemma nn_step_ok st ln ld t op ln' ld' :
+  nn_inv st -> nn_agree ln ld st -> nn_ws_step ln ld t op = Some (ln', ld') ->
+  exists st' o, nn_step st t op = HpOk (st', o) /\ nn_agree ln' ld' st' /\ nn_post st t op st'.
+Proof.
+  intros I A W. pose proof A as [Aln Ald]. subst ln ld.
+  destruct op; cbn [nn_ws_step] in W.
+  - (* NnNewHeap *)
+    destruct (nn_deadb _ _) eqn:D; [|discriminate]. injection W as <- <-.
+    destruct (nn_deadb_get _ _ D) as (s0 & E0 & Hd).
+    cbn [nn_step]. rewrite (nn_in_names_lt _ _ _ E0).
+    destruct (hp_alloc (nn_heap st) s None) as [h l] eqn:Al.
+    destruct (nn_alloc_name st _ s0 s None h l I E0 Hd Al) as [I' P'].
+    eexists _, _. split; [reflexivity|]. split.
+    + apply (nn_agree_set_name _ _ _ _ (NnLive _)). apply nn_agree_set_heap. exact A.
+    + split; [exact I'|]. nn_frames.
+      * apply nn_upd_other. exact (nn_not_in1 Hk).
+      * eapply hp_pres_weaken; [|exact P']. intros ? [].
+  - (* NnNewStatic *)
+    destruct (nn_deadb _ _) eqn:D; [|discriminate]. injection W as <- <-.
+    destruct (nn_deadb_get _ _ D) as (s0 & E0 & Hd).
+    cbn [nn_step]. rewrite (nn_in_names_lt _ _ _ E0).
+    eexists _, _. split; [reflexivity|]. split.
+    + apply (nn_agree_set_name _ _ _ _ (NnLive _)). exact A.
+    + split; [|nn_frames].
+      * constructor.
+        -- exact (ni_wf st I).
+        -- intro l'. pose proof (nn_refs_set_name st _ s0 (NnLive (nn_fresh_name (NnPStatic (nth k nn_statics [])) false)) l' E0) as R.
+           pose proof (ni_bal st I l') as B. pose proof (@nn_dead_wname l' s0 Hd) as Z.
+           cbn [nn_set_name nn_heap] in *. unfold nn_wname at 2 in R. cbn [nn_ptr_of nn_fresh_name] in R. lia.
+        -- cbn [nn_set_name nn_names]. apply nn_upd_Forall; [exact (ni_names st I)|].
+           exact (nn_fresh_ok (NnPStatic _)).
+      * apply nn_upd_other. exact (nn_not_in1 Hk).
+      * apply hp_pres_refl.
+  - (* NnFromArc *)
+    destruct (nn_deadb _ _) eqn:D; [|discriminate]. injection W as <- <-.
+    destruct (nn_deadb_get _ _ D) as (s0 & E0 & Hd).
+    cbn [nn_step]. rewrite (nn_in_names_lt _ _ _ E0).
+    destruct (hp_alloc (nn_heap st) s None) as [h l] eqn:Al.
+    destruct (hp_alloc_ok _ _ _ _ _ (ni_wf st I) Al) as (Hl & W1 & S0 & Hs1 & Hv1 & Hv2 & Hn1).
+    assert (S1 : 1 <= hp_strong_of h l) by (rewrite Hs1, S0; unfold hp_ind; rewrite N.eqb_refl; lia).
+    destruct (hp_incr_ok h l W1 S1) as (h2 & E2 & W2 & Hs2 & Hv3 & Hn2). rewrite E2.
+    eexists _, _. split; [reflexivity|]. split.
+    + apply (nn_agree_set_name _ _ _ _ (NnLive _)). destruct A as [A1 A2]. split; [exact A1|exact A2].
+    + split; [|nn_frames].
+      * constructor.
+        -- exact W2.
+        -- intro l'. cbn [nn_set_name nn_heap].
+           set (st2 := NnState h2 (nn_names st) (nn_nodes st) (nn_probes st ++ [l])).
+           pose proof (nn_refs_set_name st2 _ s0 (NnLive (nn_fresh_name (NnPHeap l) true)) l' E0) as R.
+           assert (R2 : nn_refs st2 l' = nn_refs st l' + hp_ind l l').
+           { unfold nn_refs, st2. cbn [nn_names nn_nodes nn_probes]. rewrite nn_wsum_app. cbn [nn_wsum]. unfold nn_wprobe at 2. lia. }
+           specialize (Hs1 l'). specialize (Hs2 l'). pose proof (ni_bal st I l') as B.
+           pose proof (@nn_dead_wname l' s0 Hd) as Z. subst st2.
+           cbn [nn_set_name nn_heap nn_names nn_nodes nn_probes] in *. fin_bal.
+        -- cbn [nn_set_name nn_names]. apply nn_upd_Forall; [exact (ni_names st I)|]. exact (nn_fresh_ok (NnPHeap l)).
+      * apply nn_upd_other. exact (nn_not_in1 Hk).
+      * eapply hp_pres_trans; [eapply hp_pres_alloc; [exact (ni_wf st I)|exact Al]|].
+        eapply hp_pres_incr; [exact W1|exact S1|exact E2].
+  - (* NnClone *)
+    destruct (nn_livb _ _) eqn:L; [|discriminate]. destruct (nn_deadb _ _) eqn:D; [|discriminate].
+    injection W as <- <-. destruct (nn_livb_get _ _ L) as (n & E). destruct (nn_deadb_get _ _ D) as (s0 & E0 & Hd).
+    cbn [nn_step]. rewrite E. cbn [nn_handle]. rewrite (nn_in_names_lt _ _ _ E0).
+    destruct (nn_clone_into st _ n _ s0 I E E0 Hd) as (st2 & C & N2 & D2 & I2 & P2). rewrite C.
+    eexists _, _. split; [reflexivity|]. split.
+    + apply (nn_agree_set_name _ _ _ _ (NnLive _)). split; [rewrite N2|rewrite D2]; reflexivity.
+    + split; [exact I2|]. nn_frames.
+      * rewrite N2. apply nn_upd_other. exact (nn_not_in1 Hk).
+      * rewrite D2. reflexivity.
+      * eapply hp_pres_weaken; [|exact P2]. intros ? [].
+  - (* NnDrop *)
+    destruct (nn_livb _ _) eqn:L; [|discriminate]. injection W as <- <-.
+    destruct (nn_livb_get _ _ L) as (n & E).
+    cbn [nn_step]. rewrite E. cbn [nn_handle].
+    destruct (nn_drop_name_ok st _ n I E) as (st2 & C & N2 & D2 & _ & I2 & P2). rewrite C.
+    eexists _, _. split; [reflexivity|]. split.
+    + apply (nn_agree_set_name _ _ _ _ (NnStale _)). split; [rewrite N2|rewrite D2]; reflexivity.
+    + split; [exact I2|]. nn_frames.
+      * rewrite N2. apply nn_upd_other. exact (nn_not_in1 Hk).
+      * rewrite D2. reflexivity.
+      * eapply hp_pres_weaken; [|exact P2]. intros ? [].
+  - (* NnMove *)
+    destruct (nn_livb _ _) eqn:L; [|discriminate]. destruct (nn_deadb _ _) eqn:D; [|discriminate].
+    injection W as <- <-. destruct (nn_livb_get _ _ L) as (n & E). destruct (nn_deadb_get _ _ D) as (s0 & E0 & Hd).
+    assert (Hij : nn_nidx t i <> nn_nidx t j) by (intro Q; rewrite Q in E; rewrite E in E0; injection E0 as <-; discriminate Hd).
+    cbn [nn_step]. rewrite E. cbn [nn_handle]. rewrite (nn_in_names_lt _ _ _ E0).
+    eexists _, _. split; [reflexivity|]. split.
+    + apply (nn_agree_set_name _ _ _ _ (NnLive _)). apply (nn_agree_set_name _ _ _ _ (NnStale _)). exact A.
+    + split; [|nn_frames].
+      * constructor.
+        -- exact (ni_wf st I).
+        -- intro l'. pose proof (nn_refs_set_name st _ _ (NnStale n) l' E) as R1.
+           assert (E0' : nth_error (nn_names (nn_set_name st (nn_nidx t i) (NnStale n))) (nn_nidx t j) = Some s0)
+             by (cbn [nn_set_name nn_names]; rewrite nn_upd_other; [exact E0|exact Hij]).
+           pose proof (nn_refs_set_name _ _ _ (NnLive n) l' E0') as R2.
+           pose proof (ni_bal st I l') as B. pose proof (@nn_dead_wname l' s0 Hd) as Z.
+           cbn [nn_set_name nn_heap] in *. cbn [nn_wname] in R1, R2. lia.
+        -- cbn [nn_set_name nn_names]. apply nn_upd_Forall; [apply nn_upd_Forall; [exact (ni_names st I)|exact Logic.I]|].
+           exact (nn_nth_Forall _ _ _ _ (ni_names st I) E).
+      * destruct (nn_not_in2 Hk) as [K1 K2]. rewrite nn_upd_other by exact K2. apply nn_upd_other. exact K1.
+      * apply hp_pres_refl.
+  - (* NnWithLoc *)
+    destruct (nn_livb _ _) eqn:L; [|discriminate]. destruct (nn_file_ok file) eqn:F; [|discriminate].
+    injection W as <- <-. destruct (nn_livb_get _ _ L) as (n & E).
+    pose proof (nn_nth_Forall _ _ _ _ (ni_names st I) E) as Hok. cbn [nn_slot_ok] in Hok.
+    cbn [nn_step]. rewrite E. cbn [nn_handle].
+    eexists _, _. split; [reflexivity|]. split.
+    + destruct A as [A1 A2]. split; [|exact A2]. cbn [nn_set_name nn_names]. rewrite nn_map_upd. cbn [nn_is_live].
+      clear - E. revert E. generalize (nn_nidx t i). induction (nn_names st) as [|y r IH]; intros [|k] E; cbn in *; try discriminate.
+      * injection E as ->. reflexivity.
+      * f_equal. apply IH. exact E.
+    + split; [|nn_frames].
+      * constructor.
+        -- exact (ni_wf st I).
+        -- intro l'. pose proof (nn_refs_set_name st _ _ (NnLive (NnName (nn_ptr_of n) start (tfi_pack (tfi_tag (nn_tagged n)) file))) l' E) as R.
+           pose proof (ni_bal st I l') as B. cbn [nn_set_name nn_heap] in *. cbn [nn_wname nn_ptr_of] in R. lia.
+        -- cbn [nn_set_name nn_names]. apply nn_upd_Forall; [exact (ni_names st I)|]. exact (nn_with_loc_ok n file start Hok F).
+      * apply nn_upd_other. exact (nn_not_in1 Hk).
+      * apply hp_pres_refl.
+  - (* NnRead *)
+    destruct (nn_livb _ _) eqn:L; [|discriminate]. injection W as <- <-.
+    destruct (nn_livb_get _ _ L) as (n & E). destruct (nn_text_ok st _ n I E) as (s & T).
+    cbn [nn_step]. rewrite E. cbn [nn_handle]. rewrite T.
+    eexists _, _. split; [reflexivity|]. split; [exact A|]. split; [exact I|]. nn_frames. apply hp_pres_refl.
+  - (* NnToArc *)
+    destruct (nn_livb _ _) eqn:L; [|discriminate]. injection W as <- <-.
+    destruct (nn_livb_get _ _ L) as (n & E).
+    pose proof (nn_nth_Forall _ _ _ _ (ni_names st I) E) as Hok. cbn [nn_slot_ok] in Hok.
+    cbn [nn_step]. rewrite E. cbn [nn_handle]. rewrite (nn_as_arc_ok n Hok).
+    destruct (nn_ptr_of n) as [l|sx] eqn:P.
+    + pose proof (nn_live_name_strong st _ n l I E P) as S.
+      destruct (hp_incr_ok _ l (ni_wf st I) S) as (h1 & E1 & W1 & Hs1 & Hv1 & Hn1). rewrite E1.
+      assert (S1 : 1 <= hp_strong_of h1 l) by (rewrite Hs1; lia).
+      destruct (hp_get_ok h1 l S1) as (c & G & _). rewrite G.
+      destruct (hp_decr_ok h1 l W1 S1) as (h2 & E2 & W2 & Hs2 & Hv2 & Hn2). rewrite E2.
+      eexists _, _. split; [reflexivity|]. split; [apply nn_agree_set_heap; exact A|]. split; [|nn_frames].
+      * constructor; [exact W2| |exact (ni_names st I)].
+        intro l'. rewrite nn_refs_set_heap. cbn [nn_set_heap nn_heap]. specialize (Hs1 l'). specialize (Hs2 l').
+        pose proof (ni_bal st I l'). lia.
+      * eapply hp_pres_trans; [eapply hp_pres_incr; [exact (ni_wf st I)|exact S|exact E1]|].
+        eapply hp_pres_decr; [exact W1|exact S1|exact E2].
+    + eexists _, _. split; [reflexivity|]. split; [exact A|]. split; [exact I|]. nn_frames. apply hp_pres_refl.
+  - (* NnIntoArc *)
+    destruct (nn_livb _ _) eqn:L; [|discriminate]. injection W as <- <-.
+    destruct (nn_livb_get _ _ L) as (n & E).
+    pose proof (nn_nth_Forall _ _ _ _ (ni_names st I) E) as Hok. cbn [nn_slot_ok] in Hok.
+    cbn [nn_step]. rewrite E. cbn [nn_handle]. rewrite (nn_as_arc_ok n Hok).
+    destruct (nn_ptr_of n) as [l|sx] eqn:P.
+    + pose proof (nn_live_name_strong st _ n l I E P) as S.
+      destruct (hp_incr_ok _ l (ni_wf st I) S) as (h1 & E1 & W1 & Hs1 & Hv1 & Hn1). rewrite E1.
+      assert (S1 : 1 <= hp_strong_of h1 l) by (rewrite Hs1; lia).
+      destruct (hp_decr_ok h1 l W1 S1) as (h2 & E2 & W2 & Hs2 & Hv2 & Hn2). rewrite E2.
+      assert (S2 : 1 <= hp_strong_of h2 l).
+      { pose proof (Hs2 l) as Q. pose proof (Hs1 l) as Q1. unfold hp_ind in *. rewrite N.eqb_refl in *. lia. }
+      destruct (hp_get_ok h2 l S2) as (c & G & _). rewrite G.
+      destruct (hp_decr_ok h2 l W2 S2) as (h3 & E3 & W3 & Hs3 & Hv3 & Hn3). rewrite E3.
+      eexists _, _. split; [reflexivity|]. split.
+      * apply (nn_agree_set_name _ _ _ _ (NnStale _)). apply nn_agree_set_heap. exact A.
+      * split; [|nn_frames].
+        -- constructor; [exact W3| |].
+           ++ intro l'. pose proof (nn_refs_set_name (nn_set_heap st h3) _ _ (NnStale n) l' E) as R.
+              rewrite nn_refs_set_heap in R. specialize (Hs1 l'). specialize (Hs2 l'). specialize (Hs3 l').
+              pose proof (ni_bal st I l') as B. cbn [nn_set_name nn_set_heap nn_heap nn_names nn_nodes nn_probes] in *.
+              unfold nn_wname in R. rewrite P in R. fin_bal.
+           ++ cbn [nn_set_name nn_set_heap nn_names]. apply nn_upd_Forall; [exact (ni_names st I)|exact Logic.I].
+        -- apply nn_upd_other. exact (nn_not_in1 Hk).
+        -- eapply hp_pres_trans; [eapply hp_pres_incr; [exact (ni_wf st I)|exact S|exact E1]|].
+           eapply hp_pres_trans; [eapply hp_pres_decr; [exact W1|exact S1|exact E2]|].
+           eapply hp_pres_decr; [exact W2|exact S2|exact E3].
+    + destruct (nn_text_ok st _ n I E) as (s & T). rewrite T.
+      eexists _, _. split; [reflexivity|]. split.
+      * apply (nn_agree_set_name _ _ _ _ (NnStale _)). exact A.
+      * split; [|nn_frames].
+        -- constructor; [exact (ni_wf st I)| |].
+           ++ intro l'. pose proof (nn_refs_set_name st _ _ (NnStale n) l' E) as R.
+              pose proof (ni_bal st I l') as B. cbn [nn_set_name nn_heap] in *. unfold nn_wname in R. rewrite P in R. lia.
+           ++ cbn [nn_set_name nn_names]. apply nn_upd_Forall; [exact (ni_names st I)|exact Logic.I].
+        -- apply nn_upd_other. exact (nn_not_in1 Hk).
+        -- apply hp_pres_refl.
+  - (* NnCmp *)
+    destruct (nn_livb _ _) eqn:L; [|discriminate]. destruct (nn_livb _ (nn_nidx t j)) eqn:L2; [|discriminate].
+    injection W as <- <-. destruct (nn_livb_get _ _ L) as (n & E). destruct (nn_livb_get _ _ L2) as (m & E2).
+    destruct (nn_text_ok st _ n I E) as (s1 & T1). destruct (nn_text_ok st _ m I E2) as (s2 & T2).
+    cbn [nn_step]. rewrite E, E2. cbn [nn_handle]. rewrite T1, T2.
+    eexists _, _. split; [reflexivity|]. split; [exact A|]. split; [exact I|]. nn_frames. apply hp_pres_refl.
+  - (* NnCloneTo *)
+    destruct (nn_livb _ _) eqn:L; [|discriminate]. destruct (nn_deadb _ _) eqn:D; [|discriminate].
+    injection W as <- <-. destruct (nn_livb_get _ _ L) as (n & E). destruct (nn_deadb_get _ _ D) as (s0 & E0 & Hd).
+    cbn [nn_step]. rewrite E. cbn [nn_handle]. rewrite (nn_in_names_lt _ _ _ E0).
+    destruct (nn_clone_into st _ n _ s0 I E E0 Hd) as (st2 & C & N2 & D2 & I2 & P2). rewrite C.
+    eexists _, _. split; [reflexivity|]. split.
+    + apply (nn_agree_set_name _ _ _ _ (NnLive _)). split; [rewrite N2|rewrite D2]; reflexivity.
+    + split; [exact I2|]. nn_frames.
+      * rewrite N2. apply nn_upd_other. exact (nn_not_in1 Hk).
+      * rewrite D2. reflexivity.
+      * eapply hp_pres_weaken; [|exact P2]. intros ? [].
+  - (* NdNew *)
+    destruct (nn_deadb _ _) eqn:D; [|discriminate]. injection W as <- <-.
+    destruct (nn_deadb_get _ _ D) as (s0 & E0 & Hd).
+    cbn [nn_step]. rewrite (nn_in_nodes_lt _ _ _ E0).
+    destruct (hp_alloc (nn_heap st) s None) as [h l] eqn:Al.
+    destruct (nn_alloc_node st _ s0 s None h l I E0 Hd Al) as [I' P'].
+    eexists _, _. split; [reflexivity|]. split.
+    + apply (nn_agree_set_node _ _ _ _ (NnLive _)). apply nn_agree_set_heap. exact A.
+    + split; [exact I'|]. nn_frames.
+      * apply nn_upd_other. exact (nn_not_in1 Ha).
+      * eapply hp_pres_weaken; [|exact P']. intros ? [].
+  - (* NdNewParsed *)
+    destruct (nn_deadb _ _) eqn:D; [|discriminate]. injection W as <- <-.
+    destruct (nn_deadb_get _ _ D) as (s0 & E0 & Hd).
+    cbn [nn_step]. rewrite (nn_in_nodes_lt _ _ _ E0).
+    destruct (hp_alloc (nn_heap st) s (Some (file, start, start + len))) as [h l] eqn:Al.
+    destruct (nn_alloc_node st _ s0 s _ h l I E0 Hd Al) as [I' P'].
+    eexists _, _. split; [reflexivity|]. split.
+    + apply (nn_agree_set_node _ _ _ _ (NnLive _)). apply nn_agree_set_heap. exact A.
+    + split; [exact I'|]. nn_frames.
+      * apply nn_upd_other. exact (nn_not_in1 Ha).
+      * eapply hp_pres_weaken; [|exact P']. intros ? [].
+  - (* NdClone *)
+    destruct (nn_livb _ _) eqn:L; [|discriminate]. destruct (nn_deadb _ _) eqn:D; [|discriminate].
+    injection W as <- <-. destruct (nn_livb_get _ _ L) as (l & E). destruct (nn_deadb_get _ _ D) as (s0 & E0 & Hd).
+    cbn [nn_step]. rewrite E. cbn [nn_handle]. rewrite (nn_in_nodes_lt _ _ _ E0).
+    destruct (nn_nclone_into st _ l _ s0 I E E0 Hd) as (h2 & C & I2 & P2). rewrite C.
+    eexists _, _. split; [reflexivity|]. split.
+    + apply (nn_agree_set_node _ _ _ _ (NnLive _)). apply nn_agree_set_heap. exact A.
+    + split; [exact I2|]. nn_frames.
+      * apply nn_upd_other. exact (nn_not_in1 Ha).
+      * eapply hp_pres_weaken; [|exact P2]. intros ? [].
+  - (* NdDrop *)
+    destruct (nn_livb _ _) eqn:L; [|discriminate]. injection W as <- <-.
+    destruct (nn_livb_get _ _ L) as (l & E).
+    cbn [nn_step]. rewrite E. cbn [nn_handle].
+    destruct (nn_drop_node_ok st _ l I E) as (h2 & C & I2 & P2). rewrite C.
+    eexists _, _. split; [reflexivity|]. split.
+    + apply (nn_agree_set_node _ _ _ _ (NnStale _)). apply nn_agree_set_heap. exact A.
+    + split; [exact I2|]. nn_frames.
+      * apply nn_upd_other. exact (nn_not_in1 Ha).
+      * eapply hp_pres_weaken; [|exact P2]. intros ? [].
+  - (* NdMove *)
+    destruct (nn_livb _ _) eqn:L; [|discriminate]. destruct (nn_deadb _ _) eqn:D; [|discriminate].
+    injection W as <- <-. destruct (nn_livb_get _ _ L) as (l & E). destruct (nn_deadb_get _ _ D) as (s0 & E0 & Hd).
+    assert (Hij : nn_didx t a <> nn_didx t b) by (intro Q; rewrite Q in E; rewrite E in E0; injection E0 as <-; discriminate Hd).
+    cbn [nn_step]. rewrite E. cbn [nn_handle]. rewrite (nn_in_nodes_lt _ _ _ E0).
+    eexists _, _. split; [reflexivity|]. split.
+    + apply (nn_agree_set_node _ _ _ _ (NnLive _)). apply (nn_agree_set_node _ _ _ _ (NnStale _)). exact A.
+    + split; [|nn_frames].
+      * constructor.
+        -- exact (ni_wf st I).
+        -- intro l'. pose proof (nn_refs_set_node st _ _ (NnStale l) l' E) as R1.
+           assert (E0' : nth_error (nn_nodes (nn_set_node st (nn_didx t a) (NnStale l))) (nn_didx t b) = Some s0)
+             by (cbn [nn_set_node nn_nodes]; rewrite nn_upd_other; [exact E0|exact Hij]).
+           pose proof (nn_refs_set_node _ _ _ (NnLive l) l' E0') as R2.
+           pose proof (ni_bal st I l') as B. pose proof (@nn_dead_wnode l' s0 Hd) as Z.
+           cbn [nn_set_node nn_heap] in *. cbn [nn_wnode] in R1, R2. lia.
+        -- exact (ni_names st I).
+      * destruct (nn_not_in2 Ha) as [K1 K2]. rewrite nn_upd_other by exact K2. apply nn_upd_other. exact K1.
+      * apply hp_pres_refl.
+  - (* NdRead *)
+    destruct (nn_livb _ _) eqn:L; [|discriminate]. injection W as <- <-.
+    destruct (nn_livb_get _ _ L) as (l & E).
+    destruct (hp_get_ok _ l (nn_live_node_strong st _ l I E)) as (c & G & _).
+    cbn [nn_step]. rewrite E. cbn [nn_handle]. rewrite G.
+    eexists _, _. split; [reflexivity|]. split; [exact A|]. split; [exact I|]. nn_frames. apply hp_pres_refl.
+  - (* NdCmp *)
+    destruct (nn_livb _ _) eqn:L; [|discriminate]. destruct (nn_livb _ (nn_didx t b)) eqn:L2; [|discriminate].
+    injection W as <- <-. destruct (nn_livb_get _ _ L) as (l & E). destruct (nn_livb_get _ _ L2) as (m & E2).
+    destruct (hp_get_ok _ l (nn_live_node_strong st _ l I E)) as (c & G & _).
+    destruct (hp_get_ok _ m (nn_live_node_strong st _ m I E2)) as (d & G2 & _).
+    cbn [nn_step]. rewrite E, E2. cbn [nn_handle]. rewrite G, G2.
+    eexists _, _. split; [reflexivity|]. split; [exact A|]. split; [exact I|]. nn_frames. apply hp_pres_refl.
+  - (* NdGetMut *)
+    destruct (nn_livb _ _) eqn:L; [|discriminate]. injection W as <- <-.
+    destruct (nn_livb_get _ _ L) as (l & E). pose proof (nn_live_node_strong st _ l I E) as S.
+    destruct (hp_get_ok _ l S) as (c & G & Hc & _).
+    cbn [nn_step]. rewrite E. cbn [nn_handle]. rewrite G.
+    destruct (N.eqb_spec (hp_strong c) 1) as [U|NU].
+    + destruct (hp_set_text_ok _ l s (ni_wf st I) S) as (h2 & E2 & W2 & Hs & _ & Hv & Hn). rewrite E2.
+      eexists _, _. split; [reflexivity|]. split; [apply nn_agree_set_heap; exact A|]. split; [|nn_frames].
+      * constructor; [exact W2| |exact (ni_names st I)].
+        intro l'. rewrite nn_refs_set_heap. cbn [nn_set_heap nn_heap]. rewrite Hs. exact (ni_bal st I l').
+      * eapply hp_pres_set_text; [exact (ni_wf st I)|exact S| |exact E2].
+        cbn [nn_written]. left. split; [exact E|congruence].
+    + eexists _, _. split; [reflexivity|]. split; [exact A|]. split; [exact I|]. nn_frames. apply hp_pres_refl.
+  - (* NdMakeMut *)
+    destruct (nn_livb _ _) eqn:L; [|discriminate]. injection W as <- <-.
+    destruct (nn_livb_get _ _ L) as (l & E). pose proof (nn_live_node_strong st _ l I E) as S.
+    destruct (hp_get_ok _ l S) as (c & G & Hc & _).
+    cbn [nn_step]. rewrite E. cbn [nn_handle]. rewrite G.
+    destruct (N.eqb_spec (hp_strong c) 1) as [U|NU].
+    + destruct (hp_set_text_ok _ l s (ni_wf st I) S) as (h2 & E2 & W2 & Hs & _ & Hv & Hn). rewrite E2.
+      eexists _, _. split; [reflexivity|]. split; [apply nn_agree_set_heap; exact A|]. split; [|nn_frames].
+      * constructor; [exact W2| |exact (ni_names st I)].
+        intro l'. rewrite nn_refs_set_heap. cbn [nn_set_heap nn_heap]. rewrite Hs. exact (ni_bal st I l').
+      * eapply hp_pres_set_text; [exact (ni_wf st I)|exact S| |exact E2].
+        cbn [nn_written]. left. split; [exact E|congruence].
+    + destruct (hp_alloc (nn_heap st) (hp_text c) (hp_span_of c)) as [h1 l2] eqn:Al.
+      destruct (hp_alloc_ok _ _ _ _ _ (ni_wf st I) Al) as (Hl & W1 & S0 & Hs1 & Hv1 & Hv2 & Hn1).
+      assert (Hne : l <> l2) by (intro Q; subst l2; rewrite Q in S; lia).
+      assert (S1 : 1 <= hp_strong_of h1 l) by (rewrite Hs1; lia).
+      destruct (hp_decr_ok h1 l W1 S1) as (h2 & E2 & W2 & Hs2 & Hv3 & Hn2). rewrite E2.
+      assert (S2 : 1 <= hp_strong_of h2 l2).
+      { pose proof (Hs2 l2) as Q. pose proof (Hs1 l2) as Q1. unfold hp_ind in *.
+        rewrite N.eqb_refl in Q1. destruct (N.eqb_spec l2 l); [congruence|]. lia. }
+      destruct (hp_set_text_ok h2 l2 s W2 S2) as (h3 & E3 & W3 & Hs3 & _ & Hv4 & Hn3). rewrite E3.
+      eexists _, _. split; [reflexivity|]. split.
+      * destruct A as [A1 A2]. split; [exact A1|]. cbn [nn_set_node nn_set_heap nn_nodes]. rewrite nn_map_upd. cbn [nn_is_live].
+        clear - E. revert E. generalize (nn_didx t a). induction (nn_nodes st) as [|y r IH]; intros [|k] E; cbn in *; try discriminate.
+        -- injection E as ->. reflexivity.
+        -- f_equal. apply IH. exact E.
+      * split; [|nn_frames].
+        -- constructor; [exact W3| |exact (ni_names st I)].
+           intro l'. pose proof (nn_refs_set_node (nn_set_heap st h3) _ _ (NnLive l2) l' E) as R.
+           rewrite nn_refs_set_heap in R. specialize (Hs1 l'). specialize (Hs2 l'). specialize (Hs3 l').
+           pose proof (ni_bal st I l') as B. cbn [nn_set_node nn_set_heap nn_heap nn_names nn_nodes nn_probes] in *.
+           fin_bal.
+        -- apply nn_upd_other. exact (nn_not_in1 Ha).
+        -- eapply hp_pres_trans; [eapply hp_pres_alloc; [exact (ni_wf st I)|exact Al]|].
+           eapply hp_pres_trans; [eapply hp_pres_decr; [exact W1|exact S1|exact E2]|].
+           eapply hp_pres_set_text; [exact W2|exact S2| |exact E3].
+           cbn [nn_written]. right. lia.
+  - (* NdSameLoc *)
+    destruct (nn_livb _ _) eqn:L; [|discriminate]. destruct (nn_deadb _ _) eqn:D; [|discriminate].
+    injection W as <- <-. destruct (nn_livb_get _ _ L) as (l & E). destruct (nn_deadb_get _ _ D) as (s0 & E0 & Hd).
+    destruct (hp_get_ok _ l (nn_live_node_strong st _ l I E)) as (c & G & _).
+    cbn [nn_step]. rewrite E. cbn [nn_handle]. rewrite (nn_in_nodes_lt _ _ _ E0), G.
+    destruct (hp_alloc (nn_heap st) s (hp_span_of c)) as [h l2] eqn:Al.
+    destruct (nn_alloc_node st _ s0 s _ h l2 I E0 Hd Al) as [I' P'].
+    eexists _, _. split; [reflexivity|]. split.
+    + apply (nn_agree_set_node _ _ _ _ (NnLive _)). apply nn_agree_set_heap. exact A.
+    + split; [exact I'|]. nn_frames.
+      * apply nn_upd_other. exact (nn_not_in1 Ha).
+      * eapply hp_pres_weaken; [|exact P']. intros ? [].
+  - (* NdCloneTo *)
+    destruct (nn_livb _ _) eqn:L; [|discriminate]. destruct (nn_deadb _ _) eqn:D; [|discriminate].
+    injection W as <- <-. destruct (nn_livb_get _ _ L) as (l & E). destruct (nn_deadb_get _ _ D) as (s0 & E0 & Hd).
+    cbn [nn_step]. rewrite E. cbn [nn_handle]. rewrite (nn_in_nodes_lt _ _ _ E0).
+    destruct (nn_nclone_into st _ l _ s0 I E E0 Hd) as (h2 & C & I2 & P2). rewrite C.
+    eexists _, _. split; [reflexivity|]. split.
+    + apply (nn_agree_set_node _ _ _ _ (NnLive _)). apply nn_agree_set_heap. exact A.
+    + split; [exact I2|]. nn_frames.
+      * apply nn_upd_other. exact (nn_not_in1 Ha).
+      * eapply hp_pres_weaken; [|exact P2]. intros ? [].
+Qed.
